@@ -2,7 +2,11 @@ package main
 
 import (
 	"flag"
+	"fmt"
+	"sync/atomic"
 	"time"
+
+	"github.com/mit-pdos/go-nfsd/fstxn"
 )
 
 // probe: directed histories for recorded findings whose manifestation ends the server (a request
@@ -61,5 +65,41 @@ func cmdProbe(fs *flag.FlagSet, args []string) {
 		s.opRename(a, "d", s.root(), "d")
 		s.opRemove("rmdir", s.root(), "a")
 		s.opReaddirplus(d, 0, 1000, 10000)
+	})
+	// many background shrinkers at once: every REMOVE of a large (sparse) file leaves one behind; here
+	// they are all kept waiting at the start of their first transaction (a schedule: the scheduler
+	// owes them nothing) while the client goes on removing.  A request must not come to depend on
+	// how many of them there are — in particular it must not do their work while it still holds
+	// the locks that work needs.
+	hist("remove-while-many-shrinkers-wait", func(s *seqRun) {
+		const n = 80
+		gate := make(chan struct{})
+		old := fstxn.VerifObserver
+		fstxn.VerifObserver = func(kind string, op *fstxn.FsTxn, arg uint64) {
+			if kind == "begin" && curGid() != atomic.LoadUint64(&seqMainGid) {
+				<-gate
+			}
+			if old != nil {
+				old(kind, op, arg)
+			}
+		}
+		defer func() { fstxn.VerifObserver = old }()
+		sz := uint64(700 * 4096)
+		for i := 0; i < n; i++ {
+			f := s.mk("create", s.root(), fmt.Sprintf("big%02d", i))
+			s.opSetattr(f, &sz, timeHow{}, timeHow{})
+		}
+		for i := 0; i < n && !s.dead; i++ {
+			s.opRemove("remove", s.root(), fmt.Sprintf("big%02d", i))
+		}
+		emit("# shrinkers-waiting %d", s.srv.VerifShrinker().VerifNthread())
+		close(gate)
+		for w := 0; w < 400 && s.srv.VerifShrinker().VerifNthread() > 0; w++ {
+			time.Sleep(10 * time.Millisecond)
+		}
+		emit("# shrinkers-left %d", s.srv.VerifShrinker().VerifNthread())
+		if !s.dead {
+			s.opGetattr(s.root())
+		}
 	})
 }
